@@ -89,6 +89,7 @@ def check(case, sub="photonic"):
         cl.append("register_added_explicitly")
     before = [gc.name_of(o) for o in circ.sequence()]
     pen = (lambda x: 2 * x + 1)
+    pen_dec = (lambda x: 1000 - 3 * x)  # not monotone increasing: penalty(max) is not max(penalty)
     has_cz = any(d[0] == "CZ" for d in desc["ops"])
     generic = case.get("generic", False)
     table = [
@@ -113,18 +114,19 @@ def check(case, sub="photonic"):
         for cname, kw, want, applies in table:
             if not applies:
                 continue
-            for mode in ("default", "explicit"):
+            for mode in ("default", "explicit", "explicit_decreasing"):
                 icls = mode if phase == 0 else mode + ":re-evaluated"
                 cls = getattr(gm, cname)
                 if (cname, mode) not in metrics:
-                    metrics[(cname, mode)] = guarded(sub, icls, cls) if mode == "default" else guarded(sub, icls, cls, **{kw: pen})
+                    metrics[(cname, mode)] = guarded(sub, icls, cls) if mode == "default" else guarded(
+                        sub, icls, cls, **{kw: (pen if mode == "explicit" else pen_dec)})
                     # a metric object that has already seen another circuit (the first half of this one) must not remember it
                     if decoy is not None and not (cname.startswith("CircuitMaxEmit") and decoy.n_emitters == 0):
                         guarded(sub, icls + ":decoy", metrics[(cname, mode)].evaluate, None, decoy)
                         metrics[(cname, mode)].log.clear() if hasattr(metrics[(cname, mode)].log, "clear") else None
                 metric = metrics[(cname, mode)]
                 val = guarded(sub, icls, metric.evaluate, None, circ)
-                expect = want if mode == "default" else pen(want)
+                expect = want if mode == "default" else (pen(want) if mode == "explicit" else pen_dec(want))
                 if val != expect:
                     raise Violation(sub, "metric-value", cname, icls, "%s(%s) = %r, quantity computed from the operation list = %r" % (cname, mode, val, expect))
                 if list(metric.log) != [expect] * (phase + 1):
